@@ -470,8 +470,10 @@ class Assembler:
             i += 1
 
         spec_lines = None
+        bodystart_lines = None
+        hide_utf8 = False
         for (cmd, sarg, lines, no) in self._subdirs(block):
-            if self.callee and cmd in ('bodystart', 'loop', 'before', 'after'):
+            if self.callee and cmd in ('bodystart', 'loop', 'before', 'after', 'hideutf8'):
                 continue  # callee mode: only the signature and the contract are emitted; body anchors belong to the home unit
             if self.callee and cmd == 'replace':
                 # a declared rewrite inside the body is irrelevant here; one in the signature still applies
@@ -481,9 +483,13 @@ class Assembler:
                     pos_ = sf.src.find(old_, s, ct[body_open].start)
                     if pos_ < 0:
                         continue
-            if cmd == 'props':
+            if cmd == 'hideutf8':
+                hide_utf8 = True  # opt-in (hiding a function that the pruned query does not mention crashes this Verus)
+            elif cmd == 'props':
                 props.extend(sarg.split())
             elif cmd == 'attr':
+                if self.vacuity and 'rlimit' in sarg:
+                    continue  # the vacuity twin is expected to fail: keep the small command-line resource limit
                 attrs.append(sarg)
             elif cmd == 'ret':
                 # find `->` at depth 0 between fn kw and body
@@ -514,7 +520,7 @@ class Assembler:
             elif cmd == 'spec':
                 spec_lines = mk_lines(lines, 'spec')
             elif cmd == 'bodystart':
-                splices.append((ct[body_open].end, mk_lines(lines, 'proof')))
+                bodystart_lines = mk_lines(lines, 'proof')
             elif cmd == 'loop':
                 a = sarg.split()
                 n = int(a[0])
@@ -594,6 +600,13 @@ class Assembler:
                 spec_lines = spec_lines[:idx] + new + spec_lines[idx + 1:]
         if spec_lines:
             splices.append((ct[body_open].start, spec_lines))
+        if hide_utf8 and not bodiless and not self.callee:
+            # vstd's recursive UTF-8 encoding definition is hidden in every extracted function: the proofs use vstd's lemmas about it, never its
+            # unfolding, and with it visible a falsified obligation makes Z3 diverge (resource limit) instead of reporting the failed clause
+            auto = [(lineno, 'hide(vstd::utf8::encode_utf8);', dict(kind='contract', file=rel, line=lineno, fn=key, clause_kind='proof', tags=None))]
+            splices.append((ct[body_open].end, auto + (bodystart_lines or [])))
+        elif bodystart_lines:
+            splices.append((ct[body_open].end, bodystart_lines))
         fninfo['loops'] = len(loops)
         fninfo['bodiless'] = bodiless
         self.meta['fns'][key] = fninfo
